@@ -29,17 +29,17 @@ QF_TSteps == {2}
 QF_RootLens == {3}
 FF_NChans == 1..8
 FF_FBounds == -9..9
-\* full instance
-F_RootLens == {0, 1, 2, 3, 5, 8, 11}
-F_NChans == {1, 2, 3, 4, 5, 6}
-F_TBounds == {-13, -12, -9, -6, -3, -2, -1, 0, 1, 2, 3, 4, 7, 8, 11, 12, 13}
-F_TSteps == {1, 2, 3, 4}
-F_FBounds == -8..8
-F_XBounds == {-2, -1, 1, 3}
-F_XSteps == {1, 2, 3}
-F_Shifts == {-49, -45, -44, -36, -33, -32, -21, -20, -8, -5, -4, -3, -1, 0, 1, 2, 4, 6, 8, 20, 31, 32, 35, 44, 45, 48}
-F_Delays == {-47, -44, -33, -20, -9, -4, -1, 0, 1, 4, 10, 20, 32, 35, 44, 45}
-F_IDelays == {-12, -9, -6, -2, -1, 0, 1, 3, 6, 8, 11, 12}
-F_SnipT == {-4, -1, 0, 1, 2, 4, 6, 8, 12, 16, 20, 21, 31, 32, 33, 44, 45}
-F_SnipN == {-1, 0, 1, 2, 3, 5, 8, 11, 12}
+\* full instance (sized to finish in ~10 minutes on 16 cores: a few times the quick instance)
+F_RootLens == {0, 1, 2, 3, 5, 8}
+F_NChans == {1, 2, 3, 4}
+F_TBounds == {-9, -3, -2, -1, 0, 1, 2, 4, 7, 9}
+F_TSteps == {2, 3}
+F_FBounds == {-5, -2, -1, 0, 1, 2, 3, 5}
+F_XBounds == {-1, 1}
+F_XSteps == {2}
+F_Shifts == {-37, -33, -32, -21, -8, -5, -4, -1, 0, 1, 2, 4, 6, 8, 20, 32, 35}
+F_Delays == {-36, -33, -20, -9, -4, -1, 0, 1, 4, 10, 20, 32, 35}
+F_IDelays == {-9, -6, -2, -1, 0, 1, 3, 6, 8}
+F_SnipT == {-4, -1, 0, 1, 4, 6, 8, 12, 20, 21, 32, 33}
+F_SnipN == {-1, 0, 1, 2, 3, 5, 8, 9}
 =============================================================================
